@@ -12,11 +12,11 @@ The source trie is a table `db : Hash → Option SNode`. The module state is
               (billet.go:73-80), keyed by the full path;
   * `pool`  — the unknown-node pool `hash → paths` (mptpool.go), kept as a duplicate-free list of
               `(hash, path)` pairs (the Go code keeps the paths of one hash sorted; only the set matters).
-`Billet.RestoreHashNode(path, node)` itself (the walk through the partially restored in-memory trie with
-hash validation and collapse, billet.go:61-183) is modelled by its contract: for a `(hash, path)` pair
-taken from the pool it stores the node, bumps its counter and, for a leaf, writes the value under the
-path. That the real billet never fails on such pairs is checked by the `sync` stream on every run
-(any error on valid data is an oracle failure), it is not a theorem here.
+`Billet.RestoreHashNode(path, node)` is represented here by its contract: for a `(hash, path)` pair taken from
+the pool it stores the node, bumps its counter and, for a leaf, writes the value under the path. The billet
+itself (the walk through the partially restored in-memory trie with hash validation and collapse,
+billet.go:67-190, and Traverse) is Model/Billet.lean; that the module over the real billet refines this
+pool-level model on every reachable state is Proofs/BilletRefine.lean / BilletRebuild.lean.
 
   restoreNode   = (*Module).restoreNode, module.go:655-687 (incl. the recursion into children that are
                   already in the store)
